@@ -47,6 +47,10 @@ func chanClosed(ch reflect.Value) bool {
 	return v.IsValid()
 }
 
+// SelectAltCost is the deviation cost of taking a ready select case other than the lowest-numbered one
+// (Go chooses uniformly at random among ready cases; the explorer owns that choice).
+var SelectAltCost = 1
+
 // SelectPoint parks until one of the cases is ready (or returns -1 at once if hasDefault and none is).
 // It returns the index of the case the rewritten select must execute. When several are ready the lowest
 // index is the default and the others are environment choices (Go picks uniformly at random).
@@ -92,7 +96,7 @@ func SelectPoint(hasDefault bool, cases ...Case) int {
 	if len(r) == 1 {
 		return r[0]
 	}
-	return r[Choose(len(r), 0)]
+	return r[Choose(len(r), SelectAltCost)]
 }
 
 // RecvPoint parks until a receive on ch can proceed.
